@@ -496,6 +496,25 @@ def _class_of(self, qual) -> Optional[ClassInfo]:
     return self.prog.classes.get(qual)
 
 
+def _record_class_of(self, t: Term):
+    """(class qualname, field names) when t is a record of a named-tuple class of the repository: a constant folded from a call of the class, or an
+    entry TABLE[k] of a module-level table all of whose values are such records of one class"""
+    vals = None
+    if is_const(t) and isinstance(cval(t), tuple) and type(cval(t)) is not tuple and hasattr(cval(t), "_cls_qual"):
+        vals = [cval(t)]
+    elif t.op == "sub" and t.args[0].op == "static":
+        tbl = self.statics.get(t.args[0].args[0])
+        if isinstance(tbl, dict) and tbl:
+            vals = list(tbl.values())
+        elif isinstance(tbl, (list, tuple)) and tbl:
+            vals = list(tbl)
+    if not vals or not all(isinstance(v, tuple) and type(v) is not tuple and hasattr(v, "_cls_qual") for v in vals):
+        return None
+    if len({v._cls_qual for v in vals}) != 1:
+        return None
+    return vals[0]._cls_qual, tuple(vals[0]._fields)
+
+
 def get_attr(self, base: Term, name: str, st: State, node=None) -> Term:
     op = base.op
     if op == "ref":
@@ -511,6 +530,22 @@ def get_attr(self, base: Term, name: str, st: State, node=None) -> Term:
             if n_ == name:
                 return v_
         c_ = self.prog.classes.get(base.args[0])
+        r_ = c_.lookup(name) if c_ is not None else None
+        if r_ is not None and isinstance(r_[1], FuncInfo):
+            self.fis[id(r_[1].node)] = r_[1]
+            if r_[1].kind == "property":
+                return self.call_function(r_[1], [base], {}, st, node, self_term=base)
+            if r_[1].kind == "staticmethod":
+                return self.fterm(r_[1])
+            return mk("bound", r_[1].qualname, id(r_[1].node), base if r_[1].kind != "classmethod" else mk("class", c_.qualname))
+    ntc = _record_class_of(self, base)
+    if ntc is not None:
+        # a record of a named-tuple class kept in a module-level table: fields by position, methods of the class bound to the record
+        qual_, fields_ = ntc
+        if name in fields_:
+            i_ = fields_.index(name)  # (reading a field cannot fail: no subscript event)
+            return self.lift(cval(base)[i_]) if is_const(base) else mk("sub", base, C(i_))
+        c_ = self.prog.classes.get(qual_)
         r_ = c_.lookup(name) if c_ is not None else None
         if r_ is not None and isinstance(r_[1], FuncInfo):
             self.fis[id(r_[1].node)] = r_[1]
@@ -1104,10 +1139,53 @@ def _none_status(self, t: Term, st: State):
         return True
     if is_const(t) or t.op in ("static", "ref", "tuple", "sbytes", "func", "class", "bound", "closure", "partial", "module", "bin", "cmp", "len", "builtin"):
         return False
+    if t.op == "call" and isinstance(t.args[0], Term) and t.args[0].op == "builtin" and t.args[0].args[0] in ("int.from_bytes", "len", "int", "bytes", "str", "bool", "ord", "abs", "hex", "repr", "sorted", "list", "tuple", "dict", "set", "bytearray", "divmod", "sum"):
+        return False  # the result of a constructor / conversion builtin is an object of that type
+    if t.op == "byteof":
+        return False
     for (f, pol) in st.facts:
         if f.op == "cmp" and f.args[0] in ("Is", "IsNot") and f.args[1] is t and f.args[2] is NONE:
             return pol if f.args[0] == "Is" else (not pol)
     return None
+
+
+def _fn_tuple_len(self, fi, depth=0):
+    """k when every return statement of the repository function gives a tuple display of k items, or the result of such a function"""
+    if fi is None or not isinstance(fi.node, (ast.FunctionDef,)) or fi.is_generator or depth > 4:
+        return None
+    lens = set()
+    stack = list(fi.node.body)
+    while stack:
+        n = stack.pop()
+        if isinstance(n, (ast.FunctionDef, ast.AsyncFunctionDef, ast.ClassDef, ast.Lambda)):
+            continue
+        if isinstance(n, ast.Return):
+            v = n.value
+            if isinstance(v, ast.Tuple) and not any(isinstance(x, ast.Starred) for x in v.elts):
+                lens.add(len(v.elts))
+                continue
+            callee = None
+            if isinstance(v, ast.Call):
+                if isinstance(v.func, ast.Attribute) and isinstance(v.func.value, ast.Name) and v.func.value.id in ("self", "cls") and fi.cls is not None:
+                    r_ = fi.cls.lookup(v.func.attr)
+                    callee = r_[1] if r_ is not None and isinstance(r_[1], FuncInfo) else None
+                elif isinstance(v.func, ast.Name):
+                    t_ = self.prog.resolve_expr_static(fi.module, v.func)
+                    callee = t_ if isinstance(t_, FuncInfo) else None
+            k = _fn_tuple_len(self, callee, depth + 1) if callee is not None else None
+            if k is None:
+                return None
+            lens.add(k)
+            continue
+        stack.extend(ast.iter_child_nodes(n))
+    return lens.pop() if len(lens) == 1 else None
+
+
+def _result_tuple_len(self, v: Term):
+    """k when v is the (uninterpreted) result of a call of a repository function that returns k items on every path"""
+    if not (v.op == "call" and isinstance(v.args[0], Term) and v.args[0].op in ("func", "bound")):
+        return None
+    return _fn_tuple_len(self, self.fis.get(v.args[0].args[1]))
 
 
 # ---------------------------------------------------------------------- calls
@@ -1117,6 +1195,11 @@ def ev_args(self, e: ast.Call, st: State):
         if isinstance(a, ast.Starred):
             v = self.ev(a.value, st)
             items = self.iter_items(v, st)
+            if items is None:
+                k_ = _result_tuple_len(self, v)
+                if k_ is not None:
+                    # the result of a repository function that returns a tuple display of k items on every path: its k items
+                    items = [mk("sub", v, C(i)) for i in range(k_)]
             if items is None:
                 args.append(mk("star", v))
             else:
